@@ -390,9 +390,13 @@ def entry_point(chk, repo):
            'k2 = (3/2) / (1 + 19 mu / (2 rho g R) / (J mu)), all modes sharing one compliance', ok, '' if ok else (d.describe(hs, ref) if J is not None else 'no compliance atom in the result'), where,
            key='R10.9|classical', method='whole-function interpretation + GF(p^2) PIT')
     # (b) general call: free spin, obliquity on, l = 3, e^4: returned heating == host_mass (n dUdM - spin dUdO) of the returned derivatives; a and susceptibility as documented
-    for kw, lab in ((dict(spin_frequency=spin, obliquity=I_, max_tidal_order_l=3, eccentricity_truncation_lvl=4, use_obliquity=True), 'Maxwell, free spin, obliquity, l<=3, e^4'),
-                    (dict(spin_frequency=spin, obliquity=I_, rheology='cpl', fixed_k2=X.atom('k2_fixed', 'pos'), fixed_q=X.atom('Q', 'pos')), 'CPL, free spin, obliquity'),
-                    (dict(spin_frequency=spin, rheology='ctl', fixed_k2=X.atom('k2_fixed', 'pos'), fixed_dt=X.atom('dt', 'pos')), 'CTL, free spin')):
+    for kw, lab, arrays in ((dict(spin_frequency=spin, obliquity=I_, max_tidal_order_l=3, eccentricity_truncation_lvl=4, use_obliquity=True), 'Maxwell, free spin, obliquity, l<=3, e^4', False),
+                            (dict(spin_frequency=spin, obliquity=I_, rheology='cpl', fixed_k2=X.atom('k2_fixed', 'pos'), fixed_q=X.atom('Q', 'pos')), 'CPL, free spin, obliquity', False),
+                            (dict(spin_frequency=spin, rheology='ctl', fixed_k2=X.atom('k2_fixed', 'pos'), fixed_dt=X.atom('dt', 'pos')), 'CTL, free spin', False),
+                            # the same with every symbolic input standing for a numpy array (type(x) == np.ndarray holds): the array-handling branches of the entry point
+                            (dict(spin_frequency=spin, obliquity=I_, max_tidal_order_l=3, eccentricity_truncation_lvl=4, use_obliquity=True), 'Maxwell, free spin, obliquity, l<=3, e^4, array inputs', True),
+                            (dict(spin_frequency=spin, rheology='ctl', fixed_k2=X.atom('k2_fixed', 'pos'), fixed_dt=X.atom('dt', 'pos')), 'CTL, free spin, array inputs', True)):
+        it.array_mode = arrays
         args = dict(base); args.update(kw)
         from ..core.interp import PathExplorer
 
@@ -410,4 +414,5 @@ def entry_point(chk, repo):
         chk.ob('R10.9', f'quick_tidal_dissipation ({lab}): returned tidal_heating == host_mass (n dUdM - spin dUdO) of the returned potential derivatives, with the spin rate the caller gave '
                '(on every outcome of tolerance tests made on the inputs)', ok,
                '' if ok else bad[0], where, key=f'R10.9|identity|{lab}', method='whole-function interpretation (paths through data-dependent predicates enumerated) + GF(p^2) PIT')
-    chk.floor('R10.9', 4)
+    it.array_mode = False
+    chk.floor('R10.9', 6)
